@@ -254,31 +254,103 @@ func c06unexp(c *an.Ctx) {
 		return
 	}
 	info := ri.Info()
-	// returns of field values in resolveIndex
+	// the type of the per-type cache (field name → index path)
+	var cacheT types.Type
+	if o, _ := p.Jet.Types.Scope().Lookup("cachedStructsFieldIndex").(*types.Var); o != nil {
+		if m, ok := o.Type().Underlying().(*types.Map); ok {
+			cacheT = m.Elem()
+		}
+	}
+	if cacheT == nil {
+		c.Anchor("C06.unexp", "package variable cachedStructsFieldIndex (a map of per-type caches)")
+		return
+	}
+	isFieldRead := func(call *ast.CallExpr) bool {
+		switch an.CalleeName(info, call) {
+		case "(reflect.Value).FieldByIndex", "(reflect.Value).FieldByName", "(reflect.Value).Field":
+			return true
+		}
+		return false
+	}
+	// defsOf: single-value definitions plus the comma-ok form  v, ok := m[k]
+	defsOf := func(id *ast.Ident) []ast.Expr {
+		o := an.ObjOf(info, id)
+		var out []ast.Expr
+		for _, d := range an.LocalDefs(ri, o) {
+			if d != nil {
+				out = append(out, d)
+			}
+		}
+		an.InspectOwn(ri, func(m ast.Node) bool {
+			if as, ok := m.(*ast.AssignStmt); ok && len(as.Lhs) == 2 && len(as.Rhs) == 1 {
+				if l, ok := as.Lhs[0].(*ast.Ident); ok && an.ObjOf(info, l) == o {
+					out = append(out, as.Rhs[0])
+				}
+			}
+			return true
+		})
+		return out
+	}
+	var findRead func(e ast.Expr, depth int) *ast.CallExpr
+	findRead = func(e ast.Expr, depth int) *ast.CallExpr {
+		var found *ast.CallExpr
+		if depth > 4 || e == nil {
+			return nil
+		}
+		ast.Inspect(e, func(m ast.Node) bool {
+			if found != nil {
+				return false
+			}
+			switch v := m.(type) {
+			case *ast.CallExpr:
+				if isFieldRead(v) {
+					found = v
+				}
+			case *ast.Ident:
+				for _, d := range defsOf(v) {
+					if r := findRead(d, depth+1); r != nil {
+						found = r
+					}
+				}
+			}
+			return found == nil
+		})
+		return found
+	}
+	var fromCache func(e ast.Expr, depth int) bool
+	fromCache = func(e ast.Expr, depth int) bool {
+		if depth > 4 {
+			return false
+		}
+		switch v := an.Unparen(e).(type) {
+		case *ast.IndexExpr:
+			if tv, ok := info.Types[v.X]; ok && tv.Type != nil && types.Identical(tv.Type, cacheT) {
+				return true
+			}
+		case *ast.Ident:
+			ds := defsOf(v)
+			if len(ds) == 0 {
+				return false
+			}
+			for _, d := range ds {
+				if !fromCache(d, depth+1) {
+					return false
+				}
+			}
+			return true
+		}
+		return false
+	}
 	var rets []ast.Node
-	retField := map[ast.Node]string{}
+	readOf := map[ast.Node]*ast.CallExpr{}
 	an.InspectOwn(ri, func(n ast.Node) bool {
 		ret, ok := n.(*ast.ReturnStmt)
 		if !ok || len(ret.Results) != 2 {
 			return true
 		}
-		s := an.Norm(ri, ret.Results[0])
-		// indirectEface(field) where field := v.FieldByIndex(...) in the same block
-		ast.Inspect(ret.Results[0], func(m ast.Node) bool {
-			if id, ok := m.(*ast.Ident); ok {
-				for _, d := range an.LocalDefs(ri, an.ObjOf(info, id)) {
-					if d != nil {
-						if ds := an.Str(d); strings.Contains(ds, ".FieldByIndex(") || strings.Contains(ds, ".FieldByName(") || strings.Contains(ds, ".Field(") {
-							s = ds
-						}
-					}
-				}
-			}
-			return true
-		})
-		if strings.Contains(s, ".FieldByIndex(") || strings.Contains(s, ".FieldByName(") || strings.Contains(s, ".Field(") {
+		if r := findRead(ret.Results[0], 0); r != nil {
 			rets = append(rets, ret)
-			retField[ret] = s
+			readOf[ret] = r
 		}
 		return true
 	})
@@ -286,18 +358,10 @@ func c06unexp(c *an.Ctx) {
 	pr := p.ProbeFn(ri, rets, an.Hooks{})
 	c.States += pr.X.Visited
 	for _, r := range rets {
-		s := retField[r]
+		read := readOf[r]
+		s := an.Str(read)
 		key := "resolveIndex/field-return"
-		fromCache := strings.Contains(s, "FieldByIndex(cache[")
-		if strings.HasSuffix(s, ".FieldByIndex(id)") {
-			// id, ok := cache[key]
-			an.InspectOwn(ri, func(m ast.Node) bool {
-				if as, ok := m.(*ast.AssignStmt); ok && len(as.Lhs) == 2 && len(as.Rhs) == 1 && an.Str(as.Lhs[0]) == "id" && strings.HasPrefix(an.Str(as.Rhs[0]), "cache[") {
-					fromCache = true
-				}
-				return true
-			})
-		}
+		cached := len(read.Args) == 1 && fromCache(read.Args[0], 0)
 		guarded := len(pr.At[r]) > 0
 		for _, st := range pr.At[r] {
 			g := false
@@ -311,7 +375,7 @@ func c06unexp(c *an.Ctx) {
 				guarded = false
 			}
 		}
-		if fromCache {
+		if cached {
 			c.OK("C06.unexp", key, r.Pos(), "the field index comes from the exported-only cache")
 		} else if guarded {
 			c.OK("C06.unexp", key, r.Pos(), "the field is returned only after PkgPath == \"\" was established")
